@@ -700,3 +700,96 @@ Proof.
     + destruct H as [_ [H _]]. congruence.
     + destruct H as [_ ->]. reflexivity.
 Qed.
+
+(* ---- footprints, T6: the whole-frame convolution, T7: the blurring mask as a set ---- *)
+Lemma in_footprint kh kw p q : In q (footprint kh kw p) <->
+  (- kh + 1) / 2 <= fst q - fst p < (kh + 1) / 2 /\ (- kw + 1) / 2 <= snd q - snd p < (kw + 1) / 2.
+Proof.
+  unfold footprint, offs. rewrite in_flat_map. split.
+  - intros [dy [Hdy H]]. apply in_map_iff in H. destruct H as [dx [E Hdx]].
+    rewrite in_seqZ in Hdy, Hdx. subst q. cbn [fst snd]. lia.
+  - intros [H1 H2]. exists (fst q - fst p). split; [apply in_seqZ; lia|].
+    apply in_map_iff. exists (snd q - snd p). split; [destruct q; cbn [fst snd]; f_equal; lia | apply in_seqZ; lia].
+Qed.
+Lemma existsb_px q l : existsb (px_eqb q) l = true <-> In q l.
+Proof.
+  rewrite existsb_exists. split.
+  - intros [x [Hx E]]. apply px_eqb_eq in E. now subst.
+  - intros H. exists q. split; [assumption | apply px_eqb_refl].
+Qed.
+Lemma existsb_ext' {B} (f g : B -> bool) l : (forall x, f x = g x) -> existsb f l = existsb g l.
+Proof. intros H. induction l as [|a l IH]; cbn; auto. now rewrite H, IH. Qed.
+Lemma in_kcells (K : RK) ab : In ab (kcells K) <-> 0 <= fst ab < rows K /\ 0 <= snd ab < cols K.
+Proof. unfold kcells. destruct ab as [a b]. etransitivity; [apply in_prod_iff|]. rewrite !in_seqZ. cbn [fst snd]. lia. Qed.
+Lemma src_in_footprint (K : RK) t ab : oddb (rows K) = true -> oddb (cols K) = true -> In ab (kcells K) ->
+  In (src K t ab) (footprint (rows K) (cols K) t).
+Proof.
+  unfold oddb. intros O1 O2 H. apply in_kcells in H. apply in_footprint. unfold src. cbn [fst snd].
+  Z.div_mod_to_equations. lia.
+Qed.
+Lemma lookup_map (G : px -> R) q : forall ps, In q ps -> @lookup ROps ps (map G ps) q = G q.
+Proof.
+  induction ps as [|p ps IH]; intros H; [contradiction|]. cbn [map lookup].
+  destruct (px_eqb p q) eqn:E.
+  - apply px_eqb_eq in E. now subst.
+  - destruct H as [H|H]; [subst; rewrite px_eqb_refl in E; discriminate | now apply IH].
+Qed.
+
+(* inside the footprint of an unmasked pixel the combined image of the slim / blurring values IS the native image *)
+Lemma combined_native m (K : RK) c (g : list (list R)) t q :
+  @convolver_init ROps m K = Ok c -> mz m t = false -> In q (footprint (rows K) (cols K) t) ->
+  @combined ROps m (bmask c) (@slim_of ROps g (unmasked m)) (@slim_of ROps g (unmasked (bmask c))) q = @img_fun ROps g q.
+Proof.
+  intros Hc Ht Hq. destruct (init_ok_inv m K c Hc) as [_ [_ [HB _]]].
+  destruct (bmask_unfold _ _ _ _ HB) as [FP _]. unfold footprints_in in FP.
+  rewrite forallb_forall in FP. specialize (FP t (proj2 (in_unmasked m t) Ht)).
+  rewrite forallb_forall in FP. specialize (FP q Hq).
+  unfold combined, slim_of. destruct (mz m q) eqn:E; cbn [negb].
+  - apply lookup_map, in_unmasked, mz_false. split; [now rewrite (bmask_inframe _ _ _ _ _ HB)|].
+    rewrite (bmask_get _ _ _ _ _ HB FP), E. cbn [andb].
+    replace (existsb _ (unmasked m)) with true; [reflexivity|]. symmetry. apply existsb_exists.
+    exists t. split; [now apply in_unmasked | now apply existsb_px].
+  - now apply lookup_map, in_unmasked.
+Qed.
+Lemma conv_full_ext (N1 N2 : px -> R) (K : RK) t :
+  (forall ab, In ab (kcells K) -> N1 (src K t ab) = N2 (src K t ab)) -> @conv_full ROps N1 K t = @conv_full ROps N2 K t.
+Proof. intros H. rewrite !conv_full_cells. apply sumR_map_ext. intros ab Hab. now rewrite H. Qed.
+
+Theorem whole_frame_agrees m (K : RK) c (g : list (list R)) :
+  rectb m = true -> @convolver_init ROps m K = Ok c ->
+  @convolved_array ROps m g K =
+  @convolve ROps c (@slim_of ROps g (unmasked m)) (@slim_of ROps g (unmasked (bmask c))).
+Proof.
+  intros R Hc. rewrite (convolve_eq_map m K c) by (auto; unfold slim_of; apply map_length).
+  unfold convolved_array. apply map_ext_in. intros t Ht. apply in_unmasked in Ht.
+  destruct (init_ok_inv m K c Hc) as [O1 [O2 _]].
+  apply conv_full_ext. intros ab Hab. symmetry. apply (combined_native m K c g t); auto.
+  now apply src_in_footprint.
+Qed.
+Theorem zero_residual m (K : RK) c (g : list (list R)) k :
+  rectb m = true -> @convolver_init ROps m K = Ok c ->
+  (nth k (@convolved_array ROps m g K) 0 -
+   nth k (@convolve ROps c (@slim_of ROps g (unmasked m)) (@slim_of ROps g (unmasked (bmask c)))) 0 = 0)%R.
+Proof. intros R Hc. rewrite (whole_frame_agrees m K c g R Hc). lra. Qed.
+
+Theorem bmask_is_blur_region m kh kw bm : oddb kh = true -> oddb kw = true ->
+  blurring_mask m kh kw = Ok bm -> bm = blur_region m (kh / 2) (kw / 2).
+Proof.
+  unfold oddb. intros O1 O2 H. apply bmask_unfold in H. destruct H as [_ ->]. unfold blur_region.
+  apply map_ext. intros y. apply map_ext. intros x. f_equal. f_equal. apply existsb_ext'. intros p.
+  apply eq_iff_eq_true. rewrite existsb_px, in_footprint. cbn [fst snd].
+  rewrite andb_true_iff, !Z.leb_le. Z.div_mod_to_equations. lia.
+Qed.
+Theorem convolver_bmask_is_blur_region m (K : RK) c : @convolver_init ROps m K = Ok c ->
+  bmask c = blur_region m (rows K / 2) (cols K / 2).
+Proof. intros Hc. destruct (init_ok_inv m K c Hc) as [O1 [O2 [HB _]]]. now apply bmask_is_blur_region. Qed.
+
+(* T1 in the form evaluated by spec_ok: list equality, blurring region given as a set *)
+Theorem convolve_spec_form m (K : RK) c (img bimg : list R) :
+  rectb m = true -> @convolver_init ROps m K = Ok c ->
+  length img = length (unmasked m) -> length bimg = length (unmasked (blur_region m (rows K / 2) (cols K / 2))) ->
+  @convolve ROps c img bimg =
+  map (@conv_full ROps (@combined ROps m (blur_region m (rows K / 2) (cols K / 2)) img bimg) K) (unmasked m).
+Proof.
+  intros R Hc Hl Hb. rewrite <- (convolver_bmask_is_blur_region m K c Hc) in *. now apply convolve_eq_map.
+Qed.
